@@ -106,7 +106,7 @@ def run(tier):
                 else: m[i] = rng.randrange(256)
             add("mutation", bytes(m), "t=20,exec,max=20")
     # run on the sanitizer build: crashes, over-reads (guard page + ASan), aborts, hangs
-    res = zw.run_driver(os.path.join(san, "bin", "zwdrv"), cmds, wd, tag="parse")
+    res = zw.run_driver(os.path.join(san, "bin", "zwdrv"), cmds, wd, tag="parse", max_hangs=10**9)   # mutated programs may legitimately run out of budget
     byid = {r.get("id"): r for r in res}
     nontriv = 0
     for i, (kind, txt, model) in enumerate(meta):
